@@ -158,6 +158,19 @@ def run(ctx):
     tr = [n for n in ast.walk(wr) if isinstance(n, ast.Try)]
     ok = len(tr) == 1 and any(src(h.type) == "Exception" and "promise.do_reject(error)" in " ".join(src(b) for b in h.body) for h in tr[0].handlers) and any("func(result_or_error)" in src(b) for b in tr[0].body)
     r4.check(ok, f"{m.rel}:Promise.then:exception-capture", "an exception raised by a callback does not reject the chained promise", m.rel, wr.lineno)
+    # the user's callback is invoked on every path through the wrapper: "exactly once" per settlement is the caller's side (C13.3), "at all" is here
+    wcfg = CFG(wr)
+    fparam = m.funcs["Promise.then.wrap_callback"].args.args[0].arg
+    invokes = [wcfg.node_of(c) for c in calls_in(wr, shallow=True) if isinstance(c.func, ast.Name) and c.func.id == fparam]
+    ok = bool(invokes) and wcfg.must_pass(wcfg.entry, invokes)
+    r4.check(
+        ok,
+        f"{m.rel}:Promise.then:wrapper-always-invokes",
+        f"the wrapper built by then() can return without calling `{fparam}(...)`: a callback registered with then()/catch() is then skipped for some settlements (e.g. when the chained promise was settled "
+        "directly first), although every registered callback must run exactly once",
+        m.rel,
+        wr.lineno,
+    )
     ct = m.func("Promise.catch")
     r4.check(any(isinstance(r, ast.Return) and src(r.value) == "self.then(None, rejector)" for r in ast.walk(ct)), f"{m.rel}:Promise.catch", "catch(h) is not then(None, h)", m.rel, ct.lineno)
 
